@@ -79,6 +79,37 @@ def graph():
     return [kinds, items, svc]
 
 
+RPCS2 = [('Fleet', 'StartX'), ('Fleet', 'Plain'), ('XOps', 'Get'), ('XOps', 'Other')]
+
+
+def graph2():
+    """Extended operations: StartX names XOps as its operation service; XOps.Get is the polling method."""
+    msgs = [
+        message('Operation', [field('name', 1, 'string', operation_field=1), field('http_error_status_code', 2, 'int32', operation_field=3),
+                              field('http_error_message', 3, 'string', operation_field=4),
+                              field('status', 4, 'enum:' + Q('Operation.Status'), operation_field=2), field('detail', 5, Q('OpDetail'))],
+                enums=[enum('Status', 'UNDEFINED_STATUS', 'DONE', 'PENDING', 'RUNNING')]),
+        message('OpDetail', [field('d', 1, 'string')]),
+        message('GetXOperationRequest', [field('operation', 1, 'string', operation_response_field='name'), field('project', 2, 'string')]),
+        message('OtherRequest', [field('name', 1, 'string')]), message('OtherResponse', [field('o', 1, Q('OnlyOther'))]),
+        message('OnlyOther', [field('v', 1, 'string')]),
+        message('StartXRequest', [field('project', 1, 'string', operation_request_field='project'), field('what', 2, Q('What'))]),
+        message('What', [field('w', 1, 'string')]),
+        message('PlainRequest', [field('name', 1, 'string')]), message('PlainResponse', [field('p', 1, Q('OnlyPlain'))]),
+        message('OnlyPlain', [field('v', 1, 'string')]),
+    ]
+    xops = service('XOps', [
+        method('Get', Q('GetXOperationRequest'), Q('Operation'), http=('get', '/v1/projects/{project}/xops/{operation}'),
+               operation_polling=True),
+        method('Other', Q('OtherRequest'), Q('OtherResponse'), http=('get', '/v1/{name=others/*}'))])
+    fleet = service('Fleet', [
+        method('StartX', Q('StartXRequest'), Q('Operation'), http=('post', '/v1/projects/{project}:startx', '*'), operation_service='XOps'),
+        method('Plain', Q('PlainRequest'), Q('PlainResponse'), http=('get', '/v1/{name=plains/*}'))])
+    f = file('acme/sel/v1/fleet.proto', P, messages=msgs, services=[fleet, xops])
+    f.dependency.extend(desc.std_dep_names())
+    return [f]
+
+
 def yaml_for(methods, internal, version=P, extra=''):
     y = ('type: google.api.Service\nconfig_version: 3\nname: sel.example.com\npublishing:\n  library_settings:\n'
          f'  - version: {version}\n    python_settings:\n      common:\n        selective_gapic_generation:\n'
@@ -178,8 +209,9 @@ def closure(files, kept):
     return keep, (amb & all_types) - keep, all_types
 
 
-def make_job(subset, internal, transport='grpc+rest'):
-    files = graph()
+def make_job(subset, internal, transport='grpc+rest', g=1):
+    files = graph() if g == 1 else graph2()
+    rpcs = RPCS if g == 1 else RPCS2
     param = f'transport={transport},autogen-snippets=false'
     of = None
     if subset is not None:
@@ -187,12 +219,15 @@ def make_job(subset, internal, transport='grpc+rest'):
         of = {'svc.yaml': yaml_for([f'{P}.{s}.{r}' for s, r in subset], internal)}
     req = request(files, param)
     desc.gate(req)
-    keep, amb, all_types = closure(files, set(subset) if subset is not None else set(RPCS))
-    sid = 'full' if subset is None else '+'.join(r for _, r in subset)
+    needed = set(subset) if subset is not None else set(rpcs)
+    if g == 2 and ('Fleet', 'StartX') in needed:
+        needed.add(('XOps', 'Get'))          # the polling method of the operation service it names
+    keep, amb, all_types = closure(files, needed)
+    sid = ('' if g == 1 else 'g2:') + ('full' if subset is None else '+'.join(r for _, r in subset))
     return dict(id=f'{sid}|internal={internal}', req=req.SerializeToString(), opt_files=of, probe='mc.probes.selective',
-                probe_args=dict(package=names.import_package(P), proto_package=P, rpcs=[list(x) for x in RPCS],
+                probe_args=dict(package=names.import_package(P), proto_package=P, rpcs=[list(x) for x in rpcs],
                                 all_types=sorted(all_types)),
-                _subset=subset, _internal=internal, _keep=keep, _amb=amb, _all=all_types)
+                _subset=subset, _internal=internal, _keep=keep, _amb=amb, _all=all_types, _g=g, _rpcs=rpcs, _needed=needed)
 
 
 def rejection_jobs():
@@ -214,20 +249,33 @@ def run(ctx, only=None):
     subsets = [tuple(c) for n in range(1, len(RPCS) + 1) for c in itertools.combinations(RPCS, n)]
     jobs = [make_job(None, False)]
     for s, internal in itertools.product(subsets, (False, True)):
-        if only and (sorted(map(list, s)) != sorted(only['subset']) or internal != only['internal']):
+        if only and (only.get('g', 1) != 1 or sorted(map(list, s)) != sorted(only['subset']) or internal != only['internal']):
             continue
         jobs.append(make_job(s, internal))
+    full2_at = len(jobs)
+    jobs.append(make_job(None, False, g=2))
+    subsets2 = [tuple(c) for n in range(1, len(RPCS2) + 1) for c in itertools.combinations(RPCS2, n)]
+    for s2, internal in itertools.product(subsets2, (False, True)):
+        if only and (only.get('g') != 2 or sorted(map(list, s2)) != sorted(only['subset']) or internal != only['internal']):
+            continue
+        jobs.append(make_job(s2, internal, g=2))
     rej = rejection_jobs() if not only else []
-    ctx.log(f'{len(jobs)} selective states + {len(rej)} rejection cells')
+    ctx.log(f'{len(jobs) - 2} selective states (two graphs) + {len(rej)} rejection cells')
     results = engine.run_jobs(jobs + rej)
-    full = results[0]
-    if not full['gen']['ok'] or full.get('obs', {}).get('import_error') or 'probe_error' in full:
-        raise HarnessError(f'C16: the full library itself failed: {full.get("gen")} {full.get("obs", {}).get("import_error")} {full.get("probe_error", "")[-800:]}')
-    full_calls = full['obs']['calls']
-    for job, res in zip(jobs[1:], results[1:len(jobs)]):
+    fulls = {}
+    for g_, at in ((1, 0), (2, full2_at)):
+        full = results[at]
+        if not full['gen']['ok'] or full.get('obs', {}).get('import_error') or 'probe_error' in full:
+            raise HarnessError(f'C16: the full library (graph {g_}) itself failed: {full.get("gen")} {full.get("obs", {}).get("import_error")} {full.get("probe_error", "")[-800:]}')
+        fulls[g_] = full['obs']['calls']
+    for job, res in zip(jobs, results[:len(jobs)]):
+        if job['_subset'] is None:
+            continue
+        RPCS_ = job['_rpcs']
+        full_calls = fulls[job['_g']]
         subset, internal = job['_subset'], job['_internal']
         sid = job['id']
-        st = dict(subset=[list(x) for x in subset], internal=internal)
+        st = dict(subset=[list(x) for x in subset], internal=internal, g=job['_g'])
         ctx.state(1, transitions=len(subset))
         ctx.evaluated(1)
 
@@ -246,20 +294,23 @@ def run(ctx, only=None):
             continue
         present = set(obs['types_present'])
         listed = set(subset)
+        # omit mode keeps the polling method a listed extended-operation RPC needs; in internal mode nothing is omitted and
+        # every unlisted RPC (the polling method included) is merely marked internal
+        exposed = set(listed) if internal else set(job['_needed'])
         if internal:
             missing = job['_all'] - present
             if missing:
                 bad('internal-mode-omitted-types', sorted(missing)[0], f'{sorted(missing)}')
-            for svc, rpc in RPCS:
+            for svc, rpc in RPCS_:
                 info = obs['services'].get(svc, {})
-                all_listed = all((s, r) in listed for s, r in RPCS if s == svc)
+                all_listed = all((s, r) in exposed for s, r in RPCS_ if s == svc)
                 exp_client = ('' if all_listed else 'Base') + svc + 'Client'
                 if exp_client not in info.get('clients', []):
                     bad('internal-client-name', f'{svc}', f'clients {info.get("clients")} expected {exp_client}')
                     continue
                 py = names.py_method(rpc)
-                exp_m = py if (svc, rpc) in listed else '_' + py
-                other = '_' + py if (svc, rpc) in listed else py
+                exp_m = py if (svc, rpc) in exposed else '_' + py
+                other = '_' + py if (svc, rpc) in exposed else py
                 ms = info['methods'].get(exp_client, [])
                 if exp_m not in ms or other in ms:
                     bad('internal-method-name', f'{svc}.{rpc}', f'{exp_client} offers {[m for m in ms if py in m]}, expected {exp_m}')
@@ -271,20 +322,20 @@ def run(ctx, only=None):
                 bad('closure-missing', sorted(missing)[0], f'reachable types omitted: {sorted(missing)}')
             if extra:
                 bad('closure-extra', sorted(extra)[0], f'unreachable types kept: {sorted(extra)}')
-            for svc, rpc in RPCS:
+            for svc, rpc in RPCS_:
                 info = obs['services'].get(svc, {})
                 py = names.py_method(rpc)
                 offered = any(py in ms for ms in info.get('methods', {}).values())
-                if ((svc, rpc) in listed) != offered:
-                    bad('rpc-exposure', f'{svc}.{rpc}', f'listed={(svc, rpc) in listed} but offered={offered} ({info.get("clients")})')
+                if ((svc, rpc) in exposed) != offered:
+                    bad('rpc-exposure', f'{svc}.{rpc}', f'expected exposed={(svc, rpc) in exposed} but offered={offered} ({info.get("clients")})')
         # differential: kept RPCs behave as in the full library
-        for svc, rpc in (RPCS if internal else sorted(listed)):
+        for svc, rpc in (RPCS_ if internal else sorted(exposed)):
             key = f'{svc}.{rpc}'
             if obs['calls'].get(key) != full_calls.get(key):
                 exc = (obs['calls'].get(key) or {}).get('exception')
                 sig = f'{exc["etype"]}@{exc["where"]}' if exc else ('absent' if key not in obs['calls'] else 'wire')
                 bad('differential', f'{key}|{sig}', f'{key}: selective {str(obs["calls"].get(key))[:300]} vs full {str(full_calls.get(key))[:300]}')
-        if len(subset) < len(RPCS):
+        if len(subset) < len(RPCS_):
             ctx.nontrivial_case(sid)
         ctx.outcome('judged')
         ctx.sample(dict(subset=[r for _, r in subset], internal=internal, kept_types=len(present), of=len(job['_all'])), limit=3)
@@ -297,7 +348,7 @@ def run(ctx, only=None):
                           dict(reject=job['_reject']))
         else:
             ctx.outcome('rejected:' + res['gen']['etype'])
-    ctx.extra['bound'] = 'all 63 non-empty RPC subsets x 2 modes'
+    ctx.extra['bound'] = 'all 63 non-empty RPC subsets x 2 modes; extended-operation graph: all 15 subsets x 2 modes'
     ctx.assume('whether the *own fields* of a message that is only needed as the container of a kept nested type count as reachable is not specified: such types are observed, not judged')
 
 
